@@ -93,7 +93,10 @@ func runC01(c *Ctx) {
 	for _, fn := range fns {
 		for _, d := range intDivisions(fn) {
 			key := fmt.Sprintf("divguard:%s:%s", shortFn(fn), divLabel(d))
-			if why, ok := nonZeroAt(fn, d.Y, d.Block()); ok {
+			var why string
+			var ok bool
+			withInline(func() { why, ok = nonZeroAt(fn, d.Y, d.Block()) }, roots...)
+			if ok {
 				c.Pass(key, rDiv, why, c.at(d))
 			} else {
 				c.Fail(key, rDiv, fmt.Sprintf("divisor %s of `%s` is not proven non-zero (integer divide by zero panics)", describeVal(d.Y), d.String()), c.at(d))
@@ -313,8 +316,20 @@ func runC01(c *Ctx) {
 
 	// (3b) any other integer product of two run-time values can wrap silently
 	const rMul = "an integer multiplication of two run-time values in pacer code either involves hits and carries the MaxInt64/x < hits guard, or is the exempt schedule product Freq × (elapsed / Per), whose true value is the number of hits due and therefore cannot exceed a feasible hit count; any other product (e.g. elapsed × Freq before dividing) can wrap and make the pacer answer 'behind schedule' forever"
+	isRoot := map[*ssa.Function]bool{}
+	for _, r := range roots {
+		isRoot[r] = true
+	}
 	for _, fn := range fns {
 		hits := paramOfType(fn, types.Typ[types.Uint64])
+		if !isRoot[fn] {
+			// in a helper a uint64 parameter is the hit count only if Pace passes it one; rule (3)
+			// follows such helpers from Pace. Helpers that are not single-site are judged here.
+			if singleSite(c.P, fn) != nil {
+				continue
+			}
+			hits = nil
+		}
 		eachInstr(fn, func(i ssa.Instruction) {
 			mul, ok := i.(*ssa.BinOp)
 			if !ok || mul.Op != token.MUL || !isInteger(mul.Type()) {
@@ -363,7 +378,12 @@ func runC01(c *Ctx) {
 			continue
 		}
 		// integer multiplications depending on hits whose result reaches a Convert to Duration
-		eachInstr(fn, func(i ssa.Instruction) {
+		// (also inside single-site helpers of Pace, e.g. a `due(n)` helper fed with hits+1)
+		old := inlineAware
+		inlineAware = true
+		inlineRoots[fn] = true
+		defer func(f *ssa.Function, o bool) { inlineAware = o; delete(inlineRoots, f) }(fn, old)
+		eachInstrI(fn, func(i ssa.Instruction) {
 			mul, ok := i.(*ssa.BinOp)
 			if !ok || mul.Op != token.MUL || !isInteger(mul.Type()) {
 				return
@@ -380,11 +400,11 @@ func runC01(c *Ctx) {
 			default:
 				return
 			}
-			if !reachesDurationReturn(mul) {
+			if !reachesDurationReturn(mul) && mul.Parent() == fn {
 				return
 			}
 			key := fmt.Sprintf("overflow-guard:%s:%s", shortFn(fn), "hits*"+describeVal(other))
-			g := findOverflowGuard(fn, other, hits)
+			g := findOverflowGuard(fn, rootVal(other), hits)
 			if g == nil {
 				c.Fail(key, rOv, "no MaxInt64/x < hits test on the multiplier", c.at(mul))
 				return
@@ -394,7 +414,7 @@ func runC01(c *Ctx) {
 				c.Fail(key, rOv, "overflow comparison does not control a branch", c.at(g))
 				return
 			}
-			if !edgeDominates(ifi.Block(), 1, mul.Block()) {
+			if !edgeDominates(ifi.Block(), 1, liftBlock(mul.Block(), fn)) {
 				c.Fail(key, rOv, "the product is not dominated by the no-overflow edge of the test", c.at(mul), c.at(g))
 				return
 			}
